@@ -10,6 +10,7 @@ O: the property's own laws evaluated directly on the implementation (no model in
    order consistency, null least, booleans rejected, exact integers, floor division
    identity, mixed arithmetic is float arithmetic, exact int/float comparison, unrelated
    kinds -> no matching function, lexicographic strings, transitivity on triples."""
+import collections.abc
 import fractions
 import itertools
 import json
@@ -51,6 +52,7 @@ EXPLANATION = ("proofs over the regenerated overload table (dispatch grid, boole
                "dispatch and value against the real engine + direct law oracle on the implementation")
 ALLOWED_AXIOMS = []
 HEADER = "From Coq Require Import PrimFloat.\nFrom YV Require Import Model.Scalars Gen.ScalarOps."
+HEADER64 = "From YV Require Import Model.Scalars Model.ScalarsB64 Gen.ScalarOps."
 
 HERE = os.path.dirname(os.path.dirname(os.path.dirname(os.path.abspath(__file__))))
 
@@ -69,6 +71,9 @@ STRS_MORE = ["A", "aa", "\U0001F600", "\uffff", "ababab", "1", "\x00", "\u03a9",
 OTHERS = [None, True, False]
 SEQS = [[1, 2], (1, 2), [], ()]
 SEQS_MORE = [[0], (7, 7, 7)]
+SETS = [frozenset(), frozenset([1]), frozenset([1, 2]), frozenset([2, 3]), {1, 2}]      # the last one is a mutable set
+DICTS = [{}, {1: 10}, {1: 11, 2: 20}]
+SETS_MORE = [frozenset([0, 1, 2, 3]), {7}, {2: 20, 3: 30}]
 
 BINARY = [(c, sp) for c, _, ar, sp in G.OPS if ar == 2]
 UNARY = [(c, sp) for c, _, ar, sp in G.OPS if ar == 1]
@@ -99,13 +104,14 @@ def random_scalars(rng, n):
 
 CONFIGS = G.CONFIGS
 # the configurations other than the default one run a pair grid over this smaller set
-SMALL = [0, 1, -7, 2 ** 63 + 1, 0.0, -2.5, 1e308, "", "a", "ab", "e\u0301", None, True, False, [1, 2], (1, 2), [], ()]
+SMALL = [0, 1, -7, 2 ** 63 + 1, 0.0, -2.5, 1e308, "", "a", "ab", "e\u0301", None, True, False, [1, 2], (1, 2), [], (),
+         frozenset([1]), frozenset([1, 2]), {2, 3}, {}, {1: 10}, {1: 11, 2: 20}]
 
 
 def corpus_values(full, special):
-    vals = INTS_CORE + FLOATS_CORE + STRS_CORE + OTHERS + SEQS
+    vals = INTS_CORE + FLOATS_CORE + STRS_CORE + OTHERS + SEQS + SETS + DICTS
     if full:
-        vals = vals + INTS_MORE + FLOATS_MORE + STRS_MORE + SEQS_MORE
+        vals = vals + INTS_MORE + FLOATS_MORE + STRS_MORE + SEQS_MORE + SETS_MORE
     if special:
         vals = vals + FLOATS_SPECIAL
     return vals
@@ -127,6 +133,10 @@ def kind(v):
         return "list"
     if isinstance(v, tuple):
         return "tuple"
+    if isinstance(v, (set, frozenset)):
+        return "set"
+    if isinstance(v, collections.abc.Mapping):
+        return "dict"
     return "other"
 
 
@@ -145,6 +155,10 @@ def enc(v):
         return {"t": "str", "v": [ord(c) for c in v]}
     if k in ("list", "tuple"):
         return {"t": k, "v": [enc(x) for x in v]}
+    if k == "set":
+        return {"t": "fset" if isinstance(v, frozenset) else "mset", "v": [enc(x) for x in sorted(v)]}
+    if k == "dict":
+        return {"t": "dict", "v": [[enc(a), enc(b)] for a, b in v.items()]}
     return {"t": "other", "v": repr(v)}
 
 
@@ -164,6 +178,12 @@ def dec(j):
         return [dec(x) for x in j["v"]]
     if t == "tuple":
         return tuple(dec(x) for x in j["v"])
+    if t == "fset":
+        return frozenset(dec(x) for x in j["v"])
+    if t == "mset":
+        return set(dec(x) for x in j["v"])
+    if t == "dict":
+        return {dec(a): dec(b) for a, b in j["v"]}
     raise ValueError(j)
 
 
@@ -174,6 +194,10 @@ def canon(v):
         return ("float", "nan" if v != v else v.hex())
     if k in ("list", "tuple"):
         return ("seq", tuple(canon(x) for x in v))
+    if k == "set":
+        return ("set", tuple(sorted(canon(x) for x in v)))
+    if k == "dict":
+        return ("dict", tuple(sorted((canon(a), canon(b)) for a, b in v.items())))
     if k == "other":
         return ("other", type(v).__name__)
     return (k, v)
@@ -284,6 +308,34 @@ def gfloat(f):
     return "(%s)%%float" % h
 
 
+def gfloat64(f):
+    """Flocq binary64 literal: sign, integer mantissa, exponent (canonical), range proof by computation"""
+    if f != f:
+        return "B64.qnan"
+    neg = "true" if math.copysign(1.0, f) < 0 else "false"
+    if f in (float("inf"), float("-inf")):
+        return "(B64.inf %s)" % neg
+    if f == 0:
+        return "(B64.zero %s)" % neg
+    m, e = math.frexp(abs(f))
+    mant, exp = int(m * 2 ** 53), e - 53
+    if exp < -1074:
+        sh = -1074 - exp
+        assert mant % (1 << sh) == 0
+        mant, exp = mant >> sh, -1074
+    return "(B64.fin %s %d (%d) eq_refl)" % (neg, mant, exp)
+
+
+_flt = [None]
+
+
+def gdict(items):
+    items = list(items)
+    if not items:
+        return "(@nil (Z * Z))"
+    return "[" + "; ".join("(%s, %s)" % (gal.z(a), gal.z(b)) for a, b in items) + "]"
+
+
 def gval(v):
     k = kind(v)
     if k == "null":
@@ -293,11 +345,15 @@ def gval(v):
     if k == "int":
         return "(VInt %s)" % gal.z(v)
     if k == "float":
-        return "(VFloat %s)" % gfloat(v)
+        return "(VFloat %s)" % (_flt[0] or gfloat)(v)
     if k == "str":
         return "(VStr %s)" % gal.s(v)
     if k in ("list", "tuple") and all(kind(x) == "int" for x in v):
         return "(%s %s)" % ("VList" if k == "list" else "VTuple", gal.zlist(v))
+    if k == "set" and all(kind(x) == "int" for x in v):
+        return "(VSet %s)" % gal.zlist(sorted(v))
+    if k == "dict" and all(kind(a) == "int" and kind(b) == "int" for a, b in v.items()):
+        return "(VDict %s)" % gdict(v.items())
     raise ValueError("value outside the model: %r" % (v,))
 
 
@@ -311,11 +367,15 @@ def gcanon(c):
     if k == "int":
         return "(VInt %s)" % gal.z(c[1])
     if k == "float":
-        return "(VFloat %s)" % gfloat(float("nan") if c[1] == "nan" else float.fromhex(c[1]))
+        return "(VFloat %s)" % (_flt[0] or gfloat)(float("nan") if c[1] == "nan" else float.fromhex(c[1]))
     if k == "str":
         return "(VStr %s)" % gal.s(c[1])
     if k == "seq" and all(x[0] == "int" for x in c[1]):
         return "(VList %s)" % gal.zlist([x[1] for x in c[1]])
+    if k == "set" and all(x[0] == "int" for x in c[1]):
+        return "(VSet %s)" % gal.zlist([x[1] for x in c[1]])
+    if k == "dict" and all(a[0] == "int" and b[0] == "int" for a, b in c[1]):
+        return "(VDict %s)" % gdict((a[1], b[1]) for a, b in c[1])
     return None
 
 
@@ -330,6 +390,19 @@ def gobs(obs, unchecked=False):
 
 def nonfinite(v):
     return isinstance(v, float) and (v != v or v in (float("inf"), float("-inf")))
+
+
+def case_term64(case, obs, ran, unchecked=False):
+    """the same case for the Flocq binary64 instance"""
+    _flt[0] = gfloat64
+    try:
+        return case_term(case, obs, ran, unchecked)
+    finally:
+        _flt[0] = None
+
+
+def has_float(case, obs):
+    return any(isinstance(v, float) for v in case["vals"]) or (obs[0] == "val" and obs[1][0] == "float")
 
 
 def case_term(case, obs, ran, unchecked=False):
@@ -564,6 +637,33 @@ class Laws:
             if o1 != want or o2 != want:
                 return ("repetition by an integer", {"a * b": o1, "b * a": o2}, want)
 
+    def sets_dicts(self, a, b):
+        if kind(a) == "set" and kind(b) == "set":
+            fa, fb = frozenset(a), frozenset(b)
+            want = {"<": fa < fb, "<=": fa <= fb, ">": fa > fb, ">=": fa >= fb, "=": fa == fb, "!=": fa != fb}
+            got = {s: self.E(s, a, b) for s in want}
+            if any(got[s] != ("val", ("bool", want[s])) for s in want):
+                return ("set ordering is not the subset relation", got, want)
+            if is_true(got["<"]) != (is_true(got["<="]) and not is_true(got["="])) or \
+                    (is_true(got["<="]) and is_true(got[">="])) != is_true(got["="]):
+                return ("set ordering is not a partial order consistent with =", got, "a < b iff a <= b and not a = b; a <= b and a >= b iff a = b")
+            d = self.E("-", a, b)
+            if d != ("val", canon(fa - fb)):
+                return ("set difference", {"a - b": d}, canon(fa - fb))
+            for x in (0, 1, 2, 7):
+                o = self.E("in", x, a)
+                if o != ("val", ("bool", x in fa)):
+                    return ("membership in a set", {"%d in a" % x: o}, x in fa)
+        if kind(a) == "dict" and kind(b) == "dict":
+            want = dict(a)
+            want.update(b)
+            o = self.E("+", a, b)
+            if o != ("val", canon(want)):
+                return ("dict + dict is not the merge in which the right operand wins", {"a + b": o}, canon(want))
+            e = self.E("=", a, b)
+            if e != ("val", ("bool", a == b)):
+                return ("dict equality", {"a = b": e}, a == b)
+
     def unary(self, a):
         k = kind(a)
         pos, neg, nt = self.U("+", a), self.U("-", a), self.U("not", a)
@@ -582,7 +682,7 @@ class Laws:
                 return ("`%s` is not transitive" % sp, {"a?b": x, "b?c": y, "a?c": z}, "a %s c" % sp)
 
     PAIR = ["order_mirror", "order_total", "null_least", "bool_not_number", "int_exact", "mixed_is_float",
-            "exact_compare", "unrelated_nomatch", "strings", "repetition"]
+            "exact_compare", "unrelated_nomatch", "strings", "repetition", "sets_dicts"]
     SINGLE = ["bool_not_number_unary", "unary"]
     TRIPLE = ["transitive"]
 
@@ -708,6 +808,8 @@ def too_big(case):
     """repetition results (also intermediate ones of a triple) larger than 10^5 items are not generated:
     the model would have to build them inside Coq; counts of 2^62 and more fail at once on both sides"""
     vals = case["vals"]
+    if "+" in case["ops"] and any(kind(v) == "set" for v in vals) and not all(isinstance(v, frozenset) for v in vals):
+        return True     # concatenation that iterates a set: the iteration order is not modelled
     prod = 1
     for v in vals:
         if kind(v) == "int" and 1 < v < 2 ** 62:
@@ -739,7 +841,7 @@ def triple_mode(im, case):
 
 def correspondence(run):
     lawsof = {}
-    terms, meta = [], []
+    terms, meta, terms64, idx64 = [], [], [], []
     for i, case in enumerate(gen_cases(run)):
         im = impl(cfg_of(case))
         mode = triple_mode(im, case)
@@ -766,7 +868,19 @@ def correspondence(run):
             run.cov["skipped"] += 1
             continue
         meta.append((case, plain, ran))
-    bad = run.coq_mismatches(HEADER, "case", "case_ok registry_of", terms, shard=400)
+        if has_float(case, plain) or (len(case["vals"]) == 3 and any(family(v) == "num" for v in case["vals"])):
+            terms64.append(case_term64(case, plain, ran, mode == "unchecked"))
+            idx64.append(len(meta) - 1)
+    bad = run.coq_mismatches(HEADER, "pcase", "case_ok registry_of", terms, shard=400)
+    # the same float cases on the Flocq binary64 instance (the one of C15_order_consistent_num_binary64)
+    bad64 = [idx64[j] for j in run.coq_mismatches(HEADER64, "bcase", "bcase_ok registry_of", terms64, shard=400)]
+    run.count("cases also run on the Flocq binary64 instance", len(terms64))
+    for i in bad64:
+        if i not in bad:
+            case, plain, ran = meta[i]
+            run.fail("mismatch", "%s on (%s) [%s]: the Flocq binary64 instance of the model differs from the implementation (%r) "
+                     "while the PrimFloat instance agrees" % (case_text(case), ",".join(kind(v) for v in case["vals"]),
+                                                            cfg_of(case), plain), {"case": enc_case(case), "instance": "B64"})
     reported = set()
     for i in bad[:200]:
         case, plain, ran = meta[i]
@@ -802,7 +916,7 @@ def correspondence(run):
 def model_says(run, case):
     try:
         t = case_term(case, ("err", "ENoMatch"), [])
-        return run.coq_eval(HEADER, "run_case (registry_of %s) %s" % (cfg_of(case), t))[-600:]
+        return run.coq_eval(HEADER, "prun_case (registry_of %s) %s" % (cfg_of(case), t))[-600:]
     except Exception as e:     # noqa - diagnostics only
         return "unavailable: %r" % (e,)
 
@@ -837,5 +951,5 @@ def replay(run, data):
         mode = triple_mode(im, case)
         if mode == "skip":
             return True
-        return not run.coq_mismatches(HEADER, "case", "case_ok registry_of", [case_term(case, plain, ran, mode == "unchecked")])
+        return not run.coq_mismatches(HEADER, "pcase", "case_ok registry_of", [case_term(case, plain, ran, mode == "unchecked")])
     return False
